@@ -2123,12 +2123,16 @@ static void get_user_data (interactive_t* ip, io_event_t* evt) {
                 ip->text_start = (nl + 1) - ip->text;
 
                 *nl = 0;
-                str = new_string (nl - p, "PORT_ASCII");
-                memcpy (str, p, nl - p + 1);
                 if (!(ip->ob->flags & O_DESTRUCTED))
                   {
+                    str = new_string (nl - p, "PORT_ASCII");
+                    memcpy (str, p, nl - p + 1);
                     push_malloced_string (str);
-                    apply (APPLY_PROCESS_INPUT, ip->ob, 1, ORIGIN_DRIVER);
+                    /* An error in process_input() must come back here: a longjmp to the backend
+                     * left the remaining lines of this read in the buffer until more data
+                     * arrived (and with the buffer full the next read asked for 0 bytes, which
+                     * looks like end of file: the connection was dropped). */
+                    safe_apply (APPLY_PROCESS_INPUT, ip->ob, 1, ORIGIN_DRIVER);
                     /* process_input() may have removed the interactive (quit, exec, remove_interactive) */
                     if (!is_interactive_user (ip))
                       return;
